@@ -8,7 +8,8 @@ SPEC = {
                   "insertion -> CA node any/sha/name -> rule node any/groups/hosts/cidr -> local-cidr node) matches a packet iff some added rule matches "
                   "under the documented one-rule semantics; AddRule fails exactly on the invalid rules; Drop on an untracked tuple with accepted "
                   "addresses allows iff a rule of that direction matches; allowed packets are tracked. The model is tied to the real "
-                  "NewFirewall/AddRule/Drop by generated rule sets and packets at rule boundaries.",
+                  "NewFirewall/AddRule/Drop by generated rule sets and packets at rule boundaries. "
+                  "System level (component sysmon_C16): in seeded event histories of four real nodes built by nebula.Main with allow/deny rule sets that are reloaded, an inner packet that no rule of the node allows (reference evaluation of the configured rules against the sender's certificate) and whose flow was never allowed is neither delivered to a tun nor put on the wire.",
     "level_note": "Trusted: Coq kernel; gaissmai/bart is modelled as prefix-set / longest-prefix-match (lib/Ip.v), netip.ParsePrefix classifies cidr strings "
                   "for the harness; the correspondence is differential testing (generated, boundary-biased), so the link model<->Go is as strong as its "
                   "generator. AddRule with endPort = MaxInt32 (non-terminating loop in Go) is outside the model. Conntrack timing/reload: C18/C19.",
@@ -16,7 +17,7 @@ SPEC = {
     "build_comp": "fwrules",
     "props": ["props/C16.v"],
     "corr": ["corr/Firewall_corr.v"],
-    "comps": [{"comp": "fwrules", "n_quick": 800, "n_thorough": 20000}],
+    "comps": [{"comp": "fwrules", "n_quick": 800, "n_thorough": 20000}, {"comp": "sysmon_C16", "e2e": True, "n_quick": 12, "n_thorough": 150}],
     "trusted": ["model/Firewall.v add_rule/table_match/drop_ct are hand-written mirrors of Firewall.AddRule/FirewallTable.match/Firewall.Drop (tied by correspondence)",
                 "lib/Ip.v models bart.Lite / bart.Table as prefix sets with contains / longest-prefix-match / supernets semantics",
                 "gen/Consts_Firewall.v is printed from firewall/packet.go constants by the harness"],
